@@ -51,17 +51,18 @@ func (m *LazyMem) Set(a uint16, v uint8) { m.ov[a] = v }
 // DevDesc describes the memory device of an init event.
 type DevDesc struct {
 	Kind string // "hash" | "const" | "dumb" | "map" | "tinycpm" | "image"
-	Seed int   // image: load address
+	Seed int    // image: load address
 	Val  int
 	Len  int
 	Img  []int // image: the bytes loaded at Seed over a background of Val
 }
 
 // NewInner builds the real memory object for a device description.
-//   hash  : 64 KiB, background MemHash(seed, addr)
-//   const : 64 KiB, background Val
-//   dumb  : z80.DumbMemory of Len bytes (zero filled)
-//   map   : z80.MapMemory (default 0xC7)
+//
+//	hash  : 64 KiB, background MemHash(seed, addr)
+//	const : 64 KiB, background Val
+//	dumb  : z80.DumbMemory of Len bytes (zero filled)
+//	map   : z80.MapMemory (default 0xC7)
 func NewInner(d DevDesc) z80.Memory {
 	switch d.Kind {
 	case "hash", "volatile":
@@ -98,15 +99,15 @@ type RecMem struct {
 	VSeed    int
 	VBase    int
 	seen     map[uint16]int
-	Acc   *int // shared bus-access counter (memory + ports)
-	Hook  func(n int) // called at every access with the running count
-	Inner z80.Memory
-	Rd    []uint16
-	Wr    [][2]int
-	old   map[uint16]uint8 // value before the first write of this Step
-	OnGet func(a uint16)   // optional callback (devices raising interrupts)
-	OnAny func()           // optional callback at every access (read or write)
-	Count int              // total accesses
+	Acc      *int        // shared bus-access counter (memory + ports)
+	Hook     func(n int) // called at every access with the running count
+	Inner    z80.Memory
+	Rd       []uint16
+	Wr       [][2]int
+	old      map[uint16]uint8 // value before the first write of this Step
+	OnGet    func(a uint16)   // optional callback (devices raising interrupts)
+	OnAny    func()           // optional callback at every access (read or write)
+	Count    int              // total accesses
 }
 
 func (m *RecMem) tick() {
@@ -234,12 +235,12 @@ func (r retiH) RETIHandle() { r.h.I++ }
 
 // Machine = a real CPU wired to recording devices.
 type Machine struct {
-	CPU  *z80.CPU
-	Mem  *RecMem
-	IO   *RecIO
-	H    *Handlers
-	Dev  DevDesc
-	IOD  IODesc
+	CPU          *z80.CPU
+	Mem          *RecMem
+	IO           *RecIO
+	H            *Handlers
+	Dev          DevDesc
+	IOD          IODesc
 	lastN, lastI int
 	Acc          int
 	Con          []int // bytes that reached the tinycpm console writer
@@ -315,26 +316,34 @@ func PendEnc(it *z80.Interrupt) []int {
 	return out
 }
 
-// PendDec is the inverse of PendEnc.
+// PendDec is the inverse of PendEnc.  The request objects are made with the package's own constructors, as a host
+// would make them (NMIInterrupt, IM1Interrupt, IM2Interrupt, IM0Interrupt).
 func PendDec(p []int) *z80.Interrupt {
 	if len(p) == 0 {
 		return nil
 	}
 	if p[0] == 0 {
-		return &z80.Interrupt{Type: z80.NMIType}
+		return z80.NMIInterrupt()
 	}
 	d := make([]uint8, len(p)-1)
 	for i := range d {
 		d[i] = uint8(p[i+1])
 	}
-	return &z80.Interrupt{Type: z80.IMType, Data: d}
+	switch {
+	case len(d) == 0:
+		return z80.IM1Interrupt()
+	case len(d) == 1 && d[0]&1 == 0:
+		return z80.IM2Interrupt(d[0])
+	default:
+		return z80.IM0Interrupt(d[0], d[1:]...)
+	}
 }
 
 // InitSpec is everything an init event says.
 type InitSpec struct {
 	Nin     int  // reads the computed port device has already answered (its counter runs on)
 	Bare    bool // attach the real memory object directly to the CPU (no recording wrapper): type-specific fast paths
-	Sid     int // scenario id (passed through to the init event for replays)
+	Sid     int  // scenario id (passed through to the init event for replays)
 	NoHN    bool // no RETNHandler installed
 	NoHI    bool // no RETIHandler installed
 	R       [27]int
